@@ -45,6 +45,7 @@ class Check(HCheck):
             al.move(A, 1, "right"),
             al.move(Ab, 0, "wrong"),
             al.page(Axy),
+            al.create(A + b"p:a|"),  # a prefix every earlier state looked up and found absent
         ]
         sp = [Space(Cfg("never"), ops, 5 if thorough else 4, name="edits/never")]
         # single resolution queries as letters: "resolve X; edit; resolve X" with X the last
@@ -132,7 +133,7 @@ class Check(HCheck):
                         ctx.fail("resolve-wrong", "resolving the %s of %s gave %r, expected %r (longest attached stem-prefix %s)" % (what, L.show(l), "library error" if err else g, exp, L.show(e)))
                         return
         for p in ([] if w.cfg.query_str else PROBES):
-            if p in m.closure():
+            if True:
                 try:
                     g = t.get_webentity_by_prefix(p)
                 except TE:
